@@ -1,118 +1,40 @@
 /-  C04, part H: REGRESSION examples.  The generated table of today has no ambiguous tuple (PartG:
     `C04_no_recorded_exception`), so nothing in Parts A–G shows that the model resolver CAN answer
     `.ambiguous` on signatures cola really had.  Here the pre-fix rows of three dispatched functions
-    are kept as literals (they are NOT regenerated; the rows are copied from /repo's history):
+    are evaluated.  Since round 5 the tables are NOT hand copies any more: `PartHTables.lean` is GENERATED on
+    every run of `./check C04` by `harness/translators/dump_rules.py: regression_history` from /repo's git
+    history (`git archive <commit>^ cola` / `git archive <commit> cola`, plum's own registration run on the
+    extracted tree), and `harness/props/c04.py` compares the `_post` tables with today's generated
+    `Gen/RuleTable.lean` data up to class ids (evidence key `regression_tables.post_equals_today`):
 
     * `inv_pre`  = all 14 rules of `cola/linalg/inverse/inv.py` at /repo commit f0220bc^ (the parent of
       "fix: inv(A, GMRES()) on structured operators no longer ties with the structural rules");
       `inv_post` = the same file at f0220bc (row 0 gets `precedence=-1`, nothing else changes);
     * `dot_pre`  = all 6 rules of `dot` in `cola/fns.py` at 1c4ad9a^ (parent of "fix: products with Identity
-      resolve to a unique rule"); `dot_post` = the 7 rules at 1c4ad9a (= today's `table_dot` up to class ids);
+      resolve to a unique rule"); `dot_post` = the 7 rules at 1c4ad9a;
     * `kron_pre` = all 5 rules of `kron` in `cola/fns.py` at b369c4a^ (parent of "fix: kron(Kronecker, Kronecker)
       and kronsum(KronSum, KronSum) resolve to a unique rule"); `kron_post` = the 6 rules at b369c4a.
 
-    The class hierarchy `rhier` is a hand-reduced but faithful part of cola's: the classes the three
-    tables mention, plus `Dense` and one runtime parametrisation each of the `@parametric` kinds
-    `Kronecker` and `Product` (instances have class `Kronecker[Dense, Dense] ≤ Kronecker`).
-    Everything is closed by kernel evaluation of the same `resolve` that Parts A–F evaluate. -/
+    The class hierarchy `rhier` (generated too: `issubclass` on the historical trees) is the part of cola's on the
+    classes the three tables mention, plus `Dense` and one runtime parametrisation each of the `@parametric` kinds
+    `Kronecker` and `Product` (instances have class `Kronecker[Dense, Dense] ≤ Kronecker`).  Hand-written here:
+    the index lists `structured` / `kinds` and the statements.
+    Everything is closed by kernel evaluation of the same `resolve` that Parts A–F evaluate.  That plum's REAL
+    resolver answered the same on the historical trees is `PartI.lean`. -/
 import ColaVerif.Model.Dispatch
+import ColaVerif.Properties.C04.PartHTables
 
 namespace ColaVerif.Properties.C04
 open ColaVerif.Dispatch
 
-/-- ancestor mask from the list of super-classes (incl. the class itself and `Any` = 0) -/
-def Regression.maskOf (supers : List Nat) : Nat := supers.foldl (fun a j => a ||| (1 <<< j)) 0
-
-open Regression in
-/-- reduced class table (same conventions as `Gen/RuleTable.lean: anc`) -/
-def Regression.ranc : List Nat := [
-  maskOf [0],            -- 0  Any
-  maskOf [0, 1],         -- 1  LinearOperator
-  maskOf [0, 1, 2],      -- 2  Dense
-  maskOf [0, 1, 3],      -- 3  Identity
-  maskOf [0, 1, 4],      -- 4  ScalarMul
-  maskOf [0, 1, 5],      -- 5  Permutation
-  maskOf [0, 1, 6],      -- 6  Product            (@parametric wrapper)
-  maskOf [0, 1, 7],      -- 7  BlockDiag
-  maskOf [0, 1, 8],      -- 8  Kronecker          (@parametric wrapper)
-  maskOf [0, 1, 9],      -- 9  Diagonal
-  maskOf [0, 1, 10],     -- 10 Triangular
-  maskOf [0, 1, 8, 11],  -- 11 Kronecker[Dense, Dense]
-  maskOf [0, 1, 6, 12],  -- 12 Product[Dense, Dense]
-  maskOf [0, 13],        -- 13 Algorithm
-  maskOf [0, 13, 14],    -- 14 Auto
-  maskOf [0, 13, 15],    -- 15 Cholesky
-  maskOf [0, 13, 16],    -- 16 LU
-  maskOf [0, 13, 17],    -- 17 CG
-  maskOf [0, 13, 18]     -- 18 GMRES
-]
-
-def Regression.rhier : Hier := ⟨Regression.ranc, 19, packMasks 19 Regression.ranc⟩
-
 namespace Regression
 
-/-- `inv` at f0220bc^: `inv(A: LinearOperator, alg: GMRES)` (row 0) has the default precedence 0 while its
-    siblings for CG / Auto / Cholesky / LU have -1.  Condition bit 0: `A.isa(Unitary)` (row 5),
-    bit 1: all factors of the Product are square (row 9). -/
-def inv_pre : List Sig := [
-  ⟨[[1], [18]], none, 0, none⟩,        -- 0: (LinearOperator, GMRES)          inv.py:61   @dispatch
-  ⟨[[1], [17]], none, (-1), none⟩,     -- 1: (LinearOperator, CG)             inv.py:66   precedence=-1
-  ⟨[[1], [14]], none, (-1), none⟩,     -- 2: (LinearOperator, Auto)           inv.py:73   precedence=-1
-  ⟨[[1], [15]], none, (-1), none⟩,     -- 3: (LinearOperator, Cholesky)       inv.py:95   precedence=-1
-  ⟨[[1], [16]], none, (-1), none⟩,     -- 4: (LinearOperator, LU)             inv.py:102  precedence=-1
-  ⟨[[1], [13]], none, 0, (some 0)⟩,    -- 5: (LinearOperator, Algorithm)      inv.py:108  cond Unitary
-  ⟨[[3], [13]], none, 0, none⟩,        -- 6: (Identity, Algorithm)            inv.py:113
-  ⟨[[4], [13]], none, 0, none⟩,        -- 7: (ScalarMul, Algorithm)           inv.py:118
-  ⟨[[5], [13]], none, 0, none⟩,        -- 8: (Permutation, Algorithm)         inv.py:123
-  ⟨[[6], [13]], none, 0, (some 1)⟩,    -- 9: (Product, Algorithm)             inv.py:128  cond square factors
-  ⟨[[7], [13]], none, 0, none⟩,        -- 10: (BlockDiag, Algorithm)          inv.py:134
-  ⟨[[8], [13]], none, 0, none⟩,        -- 11: (Kronecker, Algorithm)          inv.py:139
-  ⟨[[9], [13]], none, 0, none⟩,        -- 12: (Diagonal, Algorithm)           inv.py:144
-  ⟨[[10], [13]], none, 0, none⟩        -- 13: (Triangular, Algorithm)         inv.py:149
-]
-
-/-- `inv` at f0220bc: the fix is `@dispatch(precedence=-1)` on row 0 -/
-def inv_post : List Sig := (⟨[[1], [18]], none, (-1), none⟩ : Sig) :: inv_pre.tail
-
 /-- runtime classes with a structural `inv` rule (for the @parametric Kronecker both the wrapper and the
-    class of an actual instance) -/
+    class of an actual instance); ids = positions in `rnames` -/
 def structured : List Nat := [3, 4, 5, 7, 8, 9, 10, 11]
-
-/-- `dot` at 1c4ad9a^ -/
-def dot_pre : List Sig := [
-  ⟨[[1], [1]], none, 0, none⟩,   -- 0: (LinearOperator, LinearOperator)  fns.py:63
-  ⟨[[6], [1]], none, 0, none⟩,   -- 1: (Product, LinearOperator)         fns.py:68
-  ⟨[[1], [6]], none, 0, none⟩,   -- 2: (LinearOperator, Product)         fns.py:73
-  ⟨[[6], [6]], none, 0, none⟩,   -- 3: (Product, Product)                fns.py:78
-  ⟨[[0], [3]], none, 0, none⟩,   -- 4: (Any, Identity)                   fns.py:83
-  ⟨[[3], [0]], none, 0, none⟩    -- 5: (Identity, Any)                   fns.py:88
-]
-
-/-- `dot` at 1c4ad9a: the Identity rules are typed, get `precedence=1`, and (Identity, Identity) is added -/
-def dot_post : List Sig := [
-  ⟨[[1], [1]], none, 0, none⟩,
-  ⟨[[6], [1]], none, 0, none⟩,
-  ⟨[[1], [6]], none, 0, none⟩,
-  ⟨[[6], [6]], none, 0, none⟩,
-  ⟨[[1], [3]], none, 1, none⟩,   -- 4: (LinearOperator, Identity)  precedence=1
-  ⟨[[3], [1]], none, 1, none⟩,   -- 5: (Identity, LinearOperator)  precedence=1
-  ⟨[[3], [3]], none, 1, none⟩    -- 6: (Identity, Identity)        precedence=1
-]
 
 /-- every operator class of `rhier` -/
 def kinds : List Nat := [1, 2, 3, 4, 5, 7, 8, 9, 10, 11, 12]
-
-/-- `kron` at b369c4a^ -/
-def kron_pre : List Sig := [
-  ⟨[[0], [0]], none, 0, none⟩,   -- 0: (Any, Any)                        fns.py:203
-  ⟨[[1], [1]], none, 0, none⟩,   -- 1: (LinearOperator, LinearOperator)  fns.py:209
-  ⟨[[9], [9]], none, 0, none⟩,   -- 2: (Diagonal, Diagonal)              fns.py:214
-  ⟨[[8], [1]], none, 0, none⟩,   -- 3: (Kronecker, LinearOperator)       fns.py:220
-  ⟨[[1], [8]], none, 0, none⟩    -- 4: (LinearOperator, Kronecker)       fns.py:225
-]
-
-/-- `kron` at b369c4a: the pair rule is appended -/
-def kron_post : List Sig := kron_pre ++ [⟨[[8], [8]], none, 0, none⟩]
 
 end Regression
 
